@@ -7,7 +7,9 @@ PROP_V = ["Props/Properties_C02.v", "Props/Properties_C02b.v"]
 GEN_MODULES = ["Consts", "Sites"]
 FLOW_FILES = ['mu.c']
 REPLAY_HINT = "VRT_SEED=<seed> [env] _work/h/<scenario>; a STUCK report lists the sleeping threads and the last steps"
-PARTIAL = ["hand-off half, proved (Properties_C02b over MuModel, any threads/programs/schedules): in a quiescent reachable world every thread "
+PARTIAL = ["quantifier 'counting and binary semaphores': as C01 (abstract counting semaphore in the model; binary flavour in the scenario runs of mu_mix only)",
+           'C02_try_result relates two ghosts set by the same expression (last_try / held): its weight is on the lock-step tie, which compares the word values; C02_try_nonblocking holds by the shape of the three Try pcs (no P among them) -- likewise tied by replay and by the flow pin of mu.c',
+           "hand-off half, proved (Properties_C02b over MuModel, any threads/programs/schedules): in a quiescent reachable world every thread "
            "asleep in nsync_mu_lock / nsync_mu_rlock faces a mutex that is HELD (C02_no_lost_handoff_partial; writer half at full strength), it "
            "is on the queue with its flag set, MU_WAITING is set and MU_DESIG_WAKER / MU_ALL_FALSE / the spinlock are clear "
            "(C02_holder_is_responsible), and the last holder's release cannot take any path that wakes nobody (C02_last_holder_must_scan).  "
